@@ -1033,7 +1033,7 @@ Proof.
   symmetry. eapply doc_upd; eauto.
 Qed.
 
-Lemma step_write st sp F b s ms : Inv st sp F -> wf_op false sp (OWrite b s ms) = true ->
+Lemma step_write st sp F b s ms : Inv st sp F -> wf_op sp (OWrite b s ms) = true ->
   exists st' F', step st (OWrite b s ms) = Some st' /\ Inv st' (spec_step sp (OWrite b s ms)) F' /\
                  Permutation (gfrags (G_of F')) (written [OWrite b s ms] ++ gfrags (G_of F)).
 Proof.
@@ -1069,7 +1069,7 @@ Qed.
 Lemma map_ins_nil b ds : map (ins_before_close b []) ds = ds.
 Proof. rewrite <- (map_id ds) at 2. apply map_ext. intro. apply ins_nil. Qed.
 
-Lemma step_commit st sp F b : Inv st sp F -> wf_op false sp (OCommit b) = true ->
+Lemma step_commit st sp F b : Inv st sp F -> wf_op sp (OCommit b) = true ->
   exists st' F', step st (OCommit b) = Some st' /\ Inv st' (spec_step sp (OCommit b)) F' /\
                  Permutation (gfrags (G_of F')) (gfrags (G_of F)).
 Proof.
@@ -1086,7 +1086,7 @@ Proof.
   - exact HP.
 Qed.
 
-Lemma step_point st sp F b : Inv st sp F -> wf_op false sp (OPoint b) = true ->
+Lemma step_point st sp F b : Inv st sp F -> wf_op sp (OPoint b) = true ->
   exists st' F', step st (OPoint b) = Some st' /\ Inv st' (spec_step sp (OPoint b)) F' /\
                  Permutation (gfrags (G_of F')) (gfrags (G_of F)).
 Proof.
@@ -1144,7 +1144,7 @@ Proof. intro H. apply in_flat_map. exists (GClose a (Some b)). simpl. auto. Qed.
 Lemma has_close_in b d : In (SClose b) d -> has_close b d = true.
 Proof. intro H. apply existsb_exists. exists (SClose b). split; auto. simpl. apply Nat.eqb_refl. Qed.
 
-Lemma step_insert st sp F b t : Inv st sp F -> wf_op false sp (OInsert b t) = true ->
+Lemma step_insert st sp F b t : Inv st sp F -> wf_op sp (OInsert b t) = true ->
   exists st' F', step st (OInsert b t) = Some st' /\ Inv st' (spec_step sp (OInsert b t)) F' /\
                  Permutation (gfrags (G_of F')) (gfrags (G_of F)).
 Proof.
@@ -1387,11 +1387,11 @@ Proof.
   apply in_map_iff in Hi. destruct Hi as (? & ? & ?). discriminate.
 Qed.
 
-Lemma step_reset st sp F b : Inv st sp F -> wf_op false sp (OReset b) = true ->
+Lemma step_reset st sp F b : Inv st sp F -> wf_op sp (OReset b) = true ->
   exists st' F', step st (OReset b) = Some st' /\ Inv st' (spec_step sp (OReset b)) F' /\
                  incl (gfrags (G_of F')) (gfrags (G_of F)).
 Proof.
-  intros HI Hwf. cbn [wf_op negb orb] in Hwf. rewrite andb_true_r in Hwf. rename Hwf into Hb.
+  intros HI Hb. cbn [wf_op] in Hb.
   destruct (inv_lookup _ _ _ _ HI Hb) as (a & o & Ha & Ho).
   destruct st as [h hs]. cbn [st_heap st_handles] in *.
   pose proof HI as [HH Hd Hn]. cbn [st_heap st_handles] in *. pose proof HH as [Hr S Hroots Hleaf].
@@ -1455,7 +1455,7 @@ Qed.
 (* ---------- histories ---------- *)
 Definition is_reset (o : op) : bool := match o with OReset _ => true | _ => false end.
 
-Lemma step_inv st sp F o : Inv st sp F -> wf_op false sp o = true ->
+Lemma step_inv st sp F o : Inv st sp F -> wf_op sp o = true ->
   exists st' F', step st o = Some st' /\ Inv st' (spec_step sp o) F' /\
     incl (gfrags (G_of F')) (written [o] ++ gfrags (G_of F)) /\
     (is_reset o = false -> Permutation (gfrags (G_of F')) (written [o] ++ gfrags (G_of F))).
@@ -1481,7 +1481,7 @@ Qed.
 Lemma written_cons o r : written (o :: r) = written [o] ++ written r.
 Proof. destruct o; simpl; auto. destruct (is_nil s); reflexivity. Qed.
 
-Lemma run_inv : forall ops st sp F, Inv st sp F -> wf_hist false sp ops = true ->
+Lemma run_inv : forall ops st sp F, Inv st sp F -> wf_hist sp ops = true ->
   exists st' F', fold_left ostep ops (Some st) = Some st' /\ Inv st' (fold_left spec_step ops sp) F' /\
     incl (gfrags (G_of F')) (gfrags (G_of F) ++ written ops) /\
     (has_reset ops = false -> Permutation (gfrags (G_of F')) (gfrags (G_of F) ++ written ops)).
@@ -1560,7 +1560,7 @@ Definition cw_op (o : op) : bool :=
 
 Definition line_frag (f : frag) : Prop := length (snd f) = count_nl (fst f).
 
-Theorem refines_holes : forall ops, wf_hist false init_spec ops = true ->
+Theorem refines_holes : forall ops, wf_hist init_spec ops = true ->
   exists st, run ops = Some st /\
     forall b, b < sp_n (spec_run ops) ->
       exists body, sregion (spec_run ops) b = Some body /\ obs_ok st b (frags body) /\
@@ -1572,7 +1572,7 @@ Proof.
   split; [exact H1|]. split; [exact H2|]. intros f Hf. apply H3 in Hf. apply Hincl in Hf. exact Hf.
 Qed.
 
-Theorem exactly_once : forall ops, wf_hist false init_spec ops = true -> has_reset ops = false ->
+Theorem exactly_once : forall ops, wf_hist init_spec ops = true -> has_reset ops = false ->
   Permutation (frags (concat (sp_docs (spec_run ops)))) (written ops).
 Proof.
   intros ops Hwf Hres. destruct (run_inv ops init_state init_spec [] inv_init Hwf) as (st & F & _ & HI & _ & HP).
@@ -1596,7 +1596,7 @@ Qed.
 
 (* marker k of a buffer belongs to line k of its text: text and markers are the concatenations over
    the same fragment list, and every fragment carries one marker per newline *)
-Theorem markers_aligned : forall ops, wf_hist false init_spec ops = true -> forallb cw_op ops = true ->
+Theorem markers_aligned : forall ops, wf_hist init_spec ops = true -> forallb cw_op ops = true ->
   exists st, run ops = Some st /\
     forall b, b < sp_n (spec_run ops) ->
       exists fs v m, getvalue st b = Some v /\ allmarkers st b = Some m /\
@@ -1612,7 +1612,7 @@ Qed.
 
 (* the assembled output: when all buffers have been inserted into one root r, getvalue r is the
    concatenation of all written fragments, each exactly once *)
-Theorem final_output : forall ops d r, wf_hist false init_spec ops = true -> has_reset ops = false ->
+Theorem final_output : forall ops d r, wf_hist init_spec ops = true -> has_reset ops = false ->
   sp_docs (spec_run ops) = [d] -> is_root r d = true ->
   exists st fs, run ops = Some st /\ getvalue st r = Some (texts_of fs) /\ allmarkers st r = Some (marks_of fs) /\
                 fs = frags d /\ Permutation fs (written ops).
@@ -1641,7 +1641,7 @@ Qed.
 Definition boundary_ops : list op := [ONew; OWrite 0 [] [7%N]; OPoint 0; OWrite 1 [120%N; 10%N] [9%N]].
 
 Lemma markers_without_text_boundary :
-  wf_hist false init_spec boundary_ops = false /\
+  wf_hist init_spec boundary_ops = false /\
   option_map (fun st => allmarkers st 0) (run boundary_ops) = Some (Some [9%N; 7%N]).
 Proof. vm_compute. split; reflexivity. Qed.
 
